@@ -121,3 +121,70 @@ Proof.
   - destruct H as [l Hl]. rewrite Hl. destruct (gen_finish a (core st)); reflexivity.
   - rewrite H. reflexivity.
 Qed.
+
+(* ---------- the per-kind arms of the comparison loop of can_assign, as the source states them now ---------- *)
+Require Import PV.Binder.SigAssignCore.
+
+Lemma their_spec : forall a i,
+  match nth_error a i with
+  | Some t => has_their a i = true /\ their a i = t
+  | None => has_their a i = false
+  end.
+Proof.
+  intros a i. unfold has_their, their. destruct (nth_error a i) as [t|] eqn:E.
+  - split; [apply Nat.ltb_lt; apply nth_error_Some; congruence|apply nth_error_nth; exact E].
+  - apply Nat.ltb_ge. apply nth_error_None. exact E.
+Qed.
+
+Lemma cstate_fields_opt_obl : forall x n st,
+  cpos (opt_obl x n st) = cpos st /\ crpo (opt_obl x n st) = crpo st /\ ckw (opt_obl x n st) = ckw st.
+Proof. intros [q|] n st; repeat split; reflexivity. Qed.
+
+Theorem gen_sca_step_is_model : forall a i st m, gen_sca_step a i st m = sca_step a i st m.
+Proof.
+  intros a i st m. unfold gen_sca_step, sca_step, has_named, named, hasvp, hasvk, kind_in, default_clash.
+  pose proof (their_spec a i) as Ht.
+  destruct (pkind m).
+  - (* PO *)
+    destruct (nth_error a i) as [t|].
+    + destruct Ht as [-> ->]. cbn [andb].
+      destruct (pkind t); cbn [kmem existsb kind_eqb orb is_positional];
+        destruct (pdefault m), (pdefault t), (param_of_kind VP a); destruct st; reflexivity.
+    + rewrite Ht. cbn [andb]. destruct (param_of_kind VP a); reflexivity.
+  - (* POK *)
+    destruct (nth_error a i) as [t|].
+    + destruct Ht as [-> ->]. cbn [andb].
+      destruct (pkind t); cbn [kind_eqb];
+        destruct (N.eqb (pname m) (pname t)), (pdefault m), (pdefault t),
+                 (param_of_kind VP a), (param_of_kind VK a); destruct st; reflexivity.
+    + rewrite Ht. cbn [andb]. destruct (param_of_kind VP a), (param_of_kind VK a); reflexivity.
+  - (* VP *)
+    destruct (param_of_kind VP a) as [va|]; [|reflexivity]. cbn [negb]. destruct st. reflexivity.
+  - (* KO *)
+    destruct (find_param (pname m) a) as [t|].
+    + cbn [andb]. destruct (pkind t); cbn [kmem existsb kind_eqb orb is_kw_target];
+        destruct (pdefault m), (pdefault t), (param_of_kind VK a); destruct st; reflexivity.
+    + cbn [andb]. destruct (param_of_kind VK a); reflexivity.
+  - (* VK *)
+    destruct (param_of_kind VK a) as [vk|]; [|reflexivity]. cbn [negb]. destruct st. reflexivity.
+Qed.
+
+(* the whole comparison, driven by generated code only *)
+Fixpoint gen_sca_loop (a : sig) (i : nat) (st : cstate) (e : sig) : option cstate :=
+  match e with
+  | [] => Some st
+  | m :: rest => match gen_sca_step a i st m with None => None | Some st' => gen_sca_loop a (S i) st' rest end
+  end.
+
+Lemma gen_sca_loop_is_model : forall a e i st, gen_sca_loop a i st e = sca_loop a i st e.
+Proof.
+  intros a. induction e as [|m r IH]; intros i st; [reflexivity|].
+  cbn [gen_sca_loop sca_loop]. rewrite gen_sca_step_is_model. destruct (sca_step a i st m); [apply IH|reflexivity].
+Qed.
+
+Theorem sca_is_generated : forall e a,
+  sca e a = match gen_sca_loop a 0 (mkC [] [] [] []) e with
+            | None => None
+            | Some st => if forallb (gen_extra_required_ok st) a then Some (rev (obl st)) else None
+            end.
+Proof. intros e a. rewrite gen_sca_loop_is_model. apply sca_uses_generated_loop. Qed.
